@@ -1,10 +1,15 @@
 (* C14 - decoders for generated case files (no theorem depends on this file).
-   Elaborating literals is what costs time in coqc, so the exhaustive part of the case set is enumerated here, in the
-   order of itertools.product, and the implementation's outputs arrive as one packed number per block. *)
-From Coq Require Import ZArith List Bool.
+   Elaborating literals is what costs time in coqc (a Z literal goes through the number notation, ~30 us per digit;
+   a primitive-integer literal is read natively), so
+   - observed non-negative integers are written as Uint63 literals and converted here with Uint63.to_Z;
+   - the exhaustive part of the case set is enumerated here, in the order of itertools.product, and the
+     implementation's output for one case arrives packed in one integer. *)
+From Coq Require Import ZArith List Bool Uint63.
 From Shampoo Require Import Show Assign AssignChecker.
 Import ListNotations.
 Open Scope Z_scope.
+
+Definition zs (l : list int) : list Z := map Uint63.to_Z l.
 
 (* itertools.product(vals, repeat=n): the first coordinate varies slowest *)
 Fixpoint product (vals : list Z) (n : nat) : list (list Z) :=
@@ -13,39 +18,46 @@ Fixpoint product (vals : list Z) (n : nat) : list (list Z) :=
   | S k => flat_map (fun v => map (cons v) (product vals k)) vals
   end.
 
-(* one output entry (aligned, rank) packed by the harness as aligned * 64 + rank, only when 0 <= rank < 64 and
-   0 <= aligned (anything else is sent unpacked) *)
-Definition unpack (v : Z) : Z * Z := (v / 64, v mod 64).
+(* one output entry (aligned, rank) is packed by the harness as aligned + rank, only when aligned is a non-negative
+   multiple of 64 and 0 <= rank < 64 (anything else is sent unpacked) *)
+Definition unpack (v : Z) : Z * Z := (v / 64 * 64, v mod 64).
 
-Fixpoint take_cases {A} (f : list Z -> list (Z * Z) -> A) (inputs : list (list Z)) (outs : list Z) : list A :=
-  match inputs with
-  | [] => []
-  | s :: rest =>
-      let n := length s in
-      f s (map unpack (firstn n outs)) :: take_cases f rest (skipn n outs)
+(* a whole case: entry i (block i) in bits [w*i, w*(i+1)) *)
+Fixpoint fields (w : Z) (n : nat) (v : Z) : list Z :=
+  match n with
+  | O => []
+  | S k => v mod 2 ^ w :: fields w k (v / 2 ^ w)
   end.
 
-(* inputs: prefix ++ t for t in product vals k; outs: the packed outputs of all these cases, concatenated *)
+Definition unpack_case (w : Z) (n : nat) (v : Z) : list (Z * Z) := map unpack (fields w n v).
+
 Definition inputs_of (prefix vals : list Z) (k : nat) : list (list Z) := map (app prefix) (product vals k).
 
-Definition agree_block (prefix vals : list Z) (k : nat) (gs : Z) (outs : list Z) : list bool :=
+Fixpoint zip_cases {A} (f : list Z -> list (Z * Z) -> A) (w : Z) (inputs : list (list Z)) (outs : list Z) : list A :=
+  match inputs, outs with
+  | s :: rest, o :: orest => f s (unpack_case w (length s) o) :: zip_cases f w rest orest
+  | _, _ => []
+  end.
+
+(* inputs: prefix ++ t for t in product vals k; outs: one packed output per input, same order *)
+Definition agree_block (prefix vals : list Z) (k : nat) (gs w : Z) (outs : list int) : list bool :=
   let inputs := inputs_of prefix vals k in
-  if (Z.of_nat (length outs) =? Z.of_nat (length (concat inputs)))
-  then take_cases (fun s o => agree_assign s gs (ObsAssigned o)) inputs outs
+  if (length outs =? length inputs)%nat
+  then zip_cases (fun s o => agree_assign s gs (ObsAssigned o)) w inputs (zs outs)
   else map (fun _ => false) inputs.
 
-Definition check_block (prefix vals : list Z) (k : nat) (gs : Z) (outs : list Z) : list bool :=
+Definition check_block (prefix vals : list Z) (k : nat) (gs w : Z) (outs : list int) : list bool :=
   let inputs := inputs_of prefix vals k in
-  if (Z.of_nat (length outs) =? Z.of_nat (length (concat inputs)))
-  then take_cases (fun s o => C14_assign_checkbZ s gs o) inputs outs
+  if (length outs =? length inputs)%nat
+  then zip_cases (fun s o => C14_assign_checkbZ s gs o) w inputs (zs outs)
   else map (fun _ => false) inputs.
 
-(* random cases: sizes and packed outputs *)
-Definition agree_packed (sizes : list Z) (gs : Z) (outs : list Z) : bool :=
-  agree_assign sizes gs (ObsAssigned (map unpack outs)).
+(* other cases: sizes and one packed entry per block *)
+Definition agree_packed (sizes : list int) (gs : Z) (outs : list int) : bool :=
+  agree_assign (zs sizes) gs (ObsAssigned (map unpack (zs outs))).
 
-Definition check_packed (sizes : list Z) (gs : Z) (outs : list Z) : bool :=
-  C14_assign_checkbZ sizes gs (map unpack outs).
+Definition check_packed (sizes : list int) (gs : Z) (outs : list int) : bool :=
+  C14_assign_checkbZ (zs sizes) gs (map unpack (zs outs)).
 
 (* views sent flat: off0; len0; off1; len1; ... *)
 Fixpoint pairs_of (l : list Z) : list (Z * Z) :=
@@ -54,17 +66,38 @@ Fixpoint pairs_of (l : list Z) : list (Z * Z) :=
   | _ => []
   end.
 
-Definition evenb_len (l : list Z) : bool := Nat.even (length l).
+Definition even_len {A} (l : list A) : bool := Nat.even (length l).
 
-Definition agree_buffers_flat (numels : list Z) (dsize gs me : Z) (fv : list Z) (ototal ooff osize : Z) : bool :=
-  evenb_len fv && agree_buffers numels dsize gs me (pairs_of fv) ototal (ooff, osize).
+Definition agree_buffers_flat (numels : list int) (dsize gs me : Z) (fv : list int) (ototal ooff osize : Z) : bool :=
+  even_len fv && agree_buffers (zs numels) dsize gs me (pairs_of (zs fv)) ototal (ooff, osize).
 
-Definition check_buffers_flat (sizes : list Z) (gs : Z) (outs fv : list Z) : bool :=
-  evenb_len fv && C14_checkbZ sizes gs (map unpack outs) (pairs_of fv).
+Definition check_buffers_flat (sizes : list int) (gs : Z) (outs fv : list int) : bool :=
+  even_len fv && C14_checkbZ (zs sizes) gs (map unpack (zs outs)) (pairs_of (zs fv)).
+
+Definition agree_selector_i (sizes : list int) (gs me : Z) (osel : list bool) : bool :=
+  agree_selector (zs sizes) gs me osel.
+
+(* state sent flat per local block: index; src; number of positions; positions... *)
+Fixpoint take_state (fuel : nat) (l : list Z) : list (Z * (Z * list Z)) :=
+  match fuel with
+  | O => []
+  | S f =>
+      match l with
+      | i :: s :: n :: r => (i, (s, firstn (Z.to_nat n) r)) :: take_state f (skipn (Z.to_nat n) r)
+      | _ => []
+      end
+  end.
+
+Definition agree_state_flat (sizes : list int) (gs R me : Z) (nlocal : Z) (fst_ : list int) : bool :=
+  let st := take_state (length fst_) (zs fst_) in
+  (Z.of_nat (length st) =? nlocal) && agree_state (zs sizes) gs R me st.
 
 Example product_order : product [1; 2] 2 = [[1; 1]; [1; 2]; [2; 1]; [2; 2]].
 Proof. reflexivity. Qed.
 
 Example agree_block_example :
-  agree_block [128] [64; 500] 1 2 [128 * 64 + 0; 64 * 64 + 1; 128 * 64 + 1; 512 * 64 + 0] = [true; true].
+  agree_block [128] [64; 500] 1 2 10 [(128 + 0) + 1024 * (64 + 1); (128 + 1) + 1024 * (512 + 0)]%uint63 = [true; true].
+Proof. vm_compute. reflexivity. Qed.
+
+Example take_state_example : take_state 9 [3; 1; 2; 1; 4; 7; 1; 0] = [(3, (1, [1; 4])); (7, (1, []))].
 Proof. vm_compute. reflexivity. Qed.
